@@ -25,7 +25,7 @@ func TestC10_LongChains(t *testing.T) {
 			prov = store.BufferedPaginatedStoreConstructor
 		}
 		acc := ddsketch.NewDDSketchWithExactSummaryStatistics(m, prov)
-		mode := rapid.SampledFrom([]string{"absorb-merge", "random-merge", "absorb-add", "random-add", "decode-merge", "mixed"}).Draw(t, "mode")
+		mode := rapid.SampledFrom([]string{"absorb-merge", "random-merge", "absorb-add", "random-add", "decode-merge", "mixed", "add-then-copy", "add-then-copy"}).Draw(t, "mode")
 		n := rapid.IntRange(500, 4000).Draw(t, "n")
 		cl.logf("C10 long chain mode=%s n=%d", mode, n)
 		cl.label("long-chain:" + mode)
@@ -64,6 +64,28 @@ func TestC10_LongChains(t *testing.T) {
 			step := mode
 			if mode == "mixed" {
 				step = []string{"absorb-merge", "random-merge", "absorb-add", "random-add", "decode-merge"}[rapid.IntRange(0, 4).Draw(t, "step")]
+			}
+			if mode == "add-then-copy" {
+				// an addition that rounds, then the accumulator is replaced by its copy (or by its conversion to the same
+				// mapping with scale 1, or by an encode/decode round trip): whatever the copy forgets is lost for good
+				if i%2 == 0 {
+					step = "absorb-add"
+				} else {
+					step = "random-add"
+				}
+			}
+			if mode == "add-then-copy" || (mode == "mixed" && rapid.IntRange(0, 3).Draw(t, "copystep") == 0) {
+				switch rapid.IntRange(0, 2).Draw(t, "copykind") {
+				case 0:
+					acc = acc.Copy()
+				case 1:
+					acc = acc.ChangeMapping(m, prov, 1)
+				default:
+					old := acc
+					acc = old.Copy()
+					_ = old.Add(1e9) // the original lives on and changes: the copy must not notice
+				}
+				cl.label("long-chain:copies")
 			}
 			switch step {
 			case "absorb-add":
